@@ -315,10 +315,16 @@ impl DnsCache {
             .find(|(_idx, r)| r.record.matches(incoming.as_ref()))
         {
             Some((i, r)) => {
+                // A record that was withdrawn (a goodbye is kept with TTL 1 for one
+                // more second) and is announced again within that second counts as
+                // a new record, so that the listeners hear about it again.
+                let revived = r.record.get_record().get_ttl() <= 1
+                    && incoming.get_record().get_ttl() > 1;
+
                 // It is possible that this record was just updated in cache_flush
                 // processing. That's okay. We can still reset here.
                 r.record.reset_ttl(incoming.as_ref());
-                (i, false)
+                (i, revived)
             }
             None => {
                 let new_record = DnsRecordIntf {
